@@ -66,6 +66,7 @@ type ans = ANone | AOk | AErr of string | APanic of string
 type obs = {
   on : int; count : string; cl : string list; sat : string; core : string; beyond : string;
   save_ok : bool; save_msg : string; sv : string list; ckt : string;
+  cache : string option;   (* hook H7: total old_total old_n | edit_add | edit_rmv, canonical text *)
 }
 
 type step = { depth : int; cmd : string list; ans : ans; obs : obs }
@@ -82,7 +83,7 @@ let rec split_semi (toks : string list) : string list list =
     h :: (match r with [] -> [] | _ -> split_semi r)
 
 let empty_obs = { on = -1; count = ""; cl = []; sat = ""; core = ""; beyond = ""; save_ok = false;
-                  save_msg = ""; sv = []; ckt = "" }
+                  save_msg = ""; sv = []; ckt = ""; cache = None }
 
 let steps_of (b : block) : step list =
   let acc = ref [] and cur = ref None in
@@ -112,6 +113,8 @@ let steps_of (b : block) : step list =
         cur := Option.map (fun s -> { s with obs = { s.obs with sv = lines } }) !cur
       | "ckt", toks ->
         cur := Option.map (fun s -> { s with obs = { s.obs with ckt = String.concat " " toks } }) !cur
+      | "cache", toks ->
+        cur := Option.map (fun s -> { s with obs = { s.obs with cache = Some (String.concat " " toks) } }) !cur
       | _ -> ()) b.lines;
   flush ();
   List.rev !acc
@@ -171,6 +174,18 @@ let model_text (d : Model.dstate) : string list option =
   match Model.save_cnf d with
   | Model.ASaved l -> Some (List.map Conv.ocaml_string l)
   | _ -> None
+
+(* the bookkeeping of the model's cache in the text form of the harness' `cache` line *)
+let model_cache_text (d : Model.dstate) : string option =
+  match d.Model.cached with
+  | None -> None
+  | Some c ->
+    let o = function Some n -> string_of_int (Conv.int_of_nat n) | None -> "-" in
+    let l cs = String.concat " ; " (List.map (fun c -> String.concat " " (List.map string_of_int (Conv.ints_of_zlist c))) cs) in
+    let parts = [o c.Model.total; o c.Model.old_total;
+                 (match c.Model.old with Some (_, n) -> string_of_int (Conv.int_of_nat n) | None -> "-");
+                 "|"; l c.Model.edit_add; "|"; l c.Model.edit_rmv] in
+    Some (String.concat " " (List.filter (fun x -> x <> "") parts))
 
 (* ---------- the compiler contract, per distinct live circuit ---------- *)
 let ckt_memo : (string * int, bool * bool * int list) Hashtbl.t = Hashtbl.create 1024
@@ -264,7 +279,29 @@ let check (b : block) : verdict list =
           (* K11: no clause cache although the model was loaded from a CNF *)
           add (Viol ("save-cnf:no-clause-cache",
                      Printf.sprintf "model loaded from the CNF [%s] over %d features: save-cnf answers \"%s\" (and clause-update is refused): the stored clause set is empty, so Ddnnf::new creates no clause cache"
-                       (String.concat " / " (List.map (fun c -> String.concat " " (List.map string_of_int c)) raw)) n0 o0.save_msg))
+                       (String.concat " / " (List.map (fun c -> String.concat " " (List.map string_of_int c)) raw)) n0 o0.save_msg));
+          (* the model of HEAD (no cache for an empty stored set) against the implementation:
+             every command once from the loaded state *)
+          (match Model.load_cnf loadable (List.map zz raw) (Conv.nat_of_int n0) with
+           | None -> add (Diff ("load", "the model says loading panics but the implementation loaded the CNF"))
+           | Some d0 ->
+             if Model.save_cnf d0 <> Model.AErr Model.E5_no_save then
+               add (Diff ("initial-save", "the model has a clause cache, the implementation has none"));
+             List.iter (fun s ->
+                 if s.depth = 1 then begin
+                   let pc = parse_cmd s.cmd in
+                   let (_, a) = Model.cc_step false loadable d0 (model_cmd pc) in
+                   bump "model_steps_compared";
+                   let agree = match a, s.ans with
+                     | Model.AOk, AOk -> true
+                     | Model.APanic, APanic _ -> true
+                     | Model.AErr e, AErr m -> starts_with (err_prefix e) m
+                     | _ -> false in
+                   if pc <> Other && not agree then
+                     add (Diff ("answer", Printf.sprintf "no clause cache, [%s]: model and implementation answer differently (%s)"
+                                  (String.concat " " s.cmd)
+                                  (match s.ans with AOk -> "ok" | AErr m -> m | APanic m -> "panic " ^ m | ANone -> "-")))
+                 end) rest)
         end else begin
           (* ---- the initial state ---- *)
           let stored =
@@ -283,7 +320,9 @@ let check (b : block) : verdict list =
           if List.sort compare (List.map norm (List.filter (fun c -> not (List.exists (fun l -> List.mem (-l) c) c)) raw))
              <> CS.elements st0.cs then bump "initial_saves_differing_from_input_clauses";
           (* the model's stored set *)
-          let md0 = Model.load_cnf loadable (List.map zz raw) (Conv.nat_of_int n0) in
+          (* a clause cache exists: for a non-empty stored set both loader variants of the model
+             coincide; for an empty one this is the repaired loader (C12_refines_k11_repaired) *)
+          let md0 = Model.load_cnf_with true loadable (List.map zz raw) (Conv.nat_of_int n0) in
           (match md0 with
            | None -> add (Diff ("load", "the model says loading panics (unsatisfiable input) but the implementation loaded it"))
            | Some d0 ->
@@ -402,6 +441,14 @@ let check (b : block) : verdict list =
                            add (Diff ("save-cnf-text", Printf.sprintf "history [%s]: model writes [%s], implementation [%s]" h
                                         (String.concat " / " l) (String.concat " / " s.obs.sv)))
                        | _ -> add (Diff ("save-cnf-text", Printf.sprintf "history [%s]: save-cnf failed in the model or the implementation" h)));
+                      (match s.obs.cache with
+                       | Some txt ->
+                         bump "cache_bookkeeping_compared";
+                         if model_cache_text d' <> Some txt then
+                           add (Diff ("cache-bookkeeping", Printf.sprintf
+                                        "history [%s]: total old_total old_state_n | edit_add | edit_rmv: model [%s], implementation [%s]" h
+                                        (Option.value (model_cache_text d') ~default:"(no cache)") txt))
+                       | None -> ());
                       if Conv.int_of_nat (snd d'.Model.live_of) <> s.obs.on then
                         add (Diff ("feature-count", Printf.sprintf "history [%s]: model %d implementation %d" h
                                      (Conv.int_of_nat (snd d'.Model.live_of)) s.obs.on))
